@@ -5,13 +5,13 @@
 
   The client is modelled as a function from its configuration and the scripted sequence of packets
   the server side delivers to the trace of packets written / read and the final result.
-  Not modelled: AuthCallback, RetryableAuthMethod, gssapi-with-mic, BannerCallback, callbacks that
-  fail (PasswordCallback / PublicKeysCallback errors); signatures are made by the real signers and
-  judged by the harness with the stdlib (the trace records only the format).
-
-  One deliberate deviation from the code, see `pkLoop`: a signer for which no signature algorithm
-  can be chosen is always skipped (the property's reading); the code skips only the first such
-  signer and offers later ones with an EMPTY algorithm name (known finding C34/empty-algo).
+  Modelled as well: ClientConfig.AuthCallback (scripted decisions), RetryableAuthMethod,
+  PublicKeysCallback whose answer changes between calls.  Not modelled: gssapi-with-mic,
+  BannerCallback, callbacks that fail (PasswordCallback / PublicKeysCallback errors); signatures are
+  made by the real signers and judged by the harness with the stdlib (the trace records only the
+  format).  RetryableAuthMethod with maxTries <= 0 around a method that can fail without reading a
+  packet (publickey with no usable signer) spins forever in the code; the model stops after
+  |script|+1 rounds and the generators do not produce that configuration.
 -/
 import XC.Model.C32
 namespace XC.C34
@@ -37,20 +37,41 @@ inductive KbdPolicy where
   | fail          -- the challenge callback returns an error
 deriving DecidableEq, Repr, Inhabited
 
-inductive Method where
+inductive Base where
   | password (pw : String)
   | publickey (signers : List Signer)
+  /-- PublicKeysCallback: the k-th call (counted over the whole connection) returns the k-th list,
+      the last list repeats; no list = no signers -/
+  | publickeyCb (lists : List (List Signer))
   | kbd (p : KbdPolicy)
 deriving DecidableEq, Repr, Inhabited
 
-def Method.name : Method → String
+def Base.name : Base → String
   | .password _ => "password"
   | .publickey _ => "publickey"
+  | .publickeyCb _ => "publickey"
   | .kbd _ => "keyboard-interactive"
+
+/-- an AuthMethod: a base method, optionally wrapped in RetryableAuthMethod(base, maxTries) -/
+structure Method where
+  base : Base
+  retry : Option Int := none
+deriving DecidableEq, Repr, Inhabited
+
+def Method.name (m : Method) : String := m.base.name
+
+/-- what a scripted ClientConfig.AuthCallback returns -/
+inductive CbDecision where
+  | next                -- (nil, nil): fall back to the scan over ClientConfig.Auth
+  | use (m : Method)    -- this AuthMethod (need not be configured nor listed by the server)
+  | fail                -- (nil, err): the handshake aborts
+deriving DecidableEq, Repr, Inhabited
 
 structure Cfg where
   user : String
   auth : List Method
+  /-- AuthCallback: none = nil; some ds = set, its k-th invocation returns ds[k] (`next` beyond the end) -/
+  authCb : Option (List CbDecision) := none
 deriving Repr, Inhabited
 
 /-! ## what the server side delivers -/
@@ -212,36 +233,38 @@ def compatSigner (s : Signer) (algo : String) : Option Signer :=
 /-- how the loop over signers ends -/
 inductive PkRes where
   | ret (out : AuthOut)                                   -- a `return` inside the loop
-  | exhausted (methods : Option (List String)) (script : List Srv) (evs : List Ev) (compat : List Signer)
+  /-- the list is exhausted; `sigErr` = some signer had no negotiable algorithm (errSigAlgo ≠ nil) -/
+  | exhausted (methods : Option (List String)) (script : List Srv) (evs : List Ev) (compat : List Signer) (sigErr : Bool)
 deriving Repr, Inhabited
 
 /-- the loop over signers.  `orig` = still inside the original list (compat signers are
-    collected); `methods` = list from the last failed signature attempt. -/
+    collected); `methods` = list from the last failed signature attempt; `sigErr` = errSigAlgo set. -/
 def pkLoop (user : String) (sigAlgs : Option String) :
-    List Signer → Bool → List Signer → Option (List String) → List Srv → List Ev → PkRes
-  | [], _, compat, methods, script, evs => .exhausted methods script evs compat
-  | s :: more, orig, compat, methods, script, evs =>
+    List Signer → Bool → List Signer → Option (List String) → Bool → List Srv → List Ev → PkRes
+  | [], _, compat, methods, sigErr, script, evs => .exhausted methods script evs compat sigErr
+  | s :: more, orig, compat, methods, sigErr, script, evs =>
     match pickSignatureAlgorithm s sigAlgs with
-    | none => pkLoop user sigAlgs more orig compat methods script evs   -- (deviation: see header)
+    | none => pkLoop user sigAlgs more orig compat methods true script evs   -- skipped, error remembered
     | some algo =>
       match confirmKeyAck algo s script (evs ++ [Ev.wQuery user algo s.key]) with
       | (.inl e, evs, rest) => .ret (failWith e evs rest)
       | (.inr false, evs, rest) =>
-        pkLoop user sigAlgs more orig (if orig then compat ++ (compatSigner s algo).toList else compat) methods rest evs
+        pkLoop user sigAlgs more orig (if orig then compat ++ (compatSigner s algo).toList else compat) methods sigErr rest evs
       | (.inr true, evs, rest) =>
         let r := handleAuthResponse rest false (evs ++ [Ev.wSign user algo s.key (underlyingAlgo algo)])
         if r.err.isSome then .ret (failWith (r.err.getD .other) r.evs r.rest)
         else if r.res != .failure || !(r.methods.getD []).contains "publickey" then .ret r
-        else pkLoop user sigAlgs more orig compat r.methods r.rest r.evs
+        else pkLoop user sigAlgs more orig compat r.methods sigErr r.rest r.evs
 
-/-- `publicKeyCallback.auth`: the original signers, then the collected compat signers -/
+/-- `publicKeyCallback.auth`: the original signers, then the collected compat signers; at the end
+    `return authFailure, methods, errSigAlgo` -/
 def pkAuth (user : String) (sigAlgs : Option String) (signers : List Signer) (script : List Srv) : AuthOut :=
-  match pkLoop user sigAlgs signers true [] none script [] with
+  match pkLoop user sigAlgs signers true [] none false script [] with
   | .ret out => out
-  | .exhausted methods script evs compat =>
-    match pkLoop user sigAlgs compat false [] methods script evs with
+  | .exhausted methods script evs compat sigErr =>
+    match pkLoop user sigAlgs compat false [] methods sigErr script evs with
     | .ret out => out
-    | .exhausted methods script evs _ => ⟨.failure, methods, none, evs, script⟩
+    | .exhausted methods script evs _ sigErr => ⟨.failure, methods, if sigErr then some .other else none, evs, script⟩
 
 /-! ## keyboard-interactive -/
 
@@ -269,11 +292,40 @@ def kbdLoop (p : KbdPolicy) : List Srv → Bool → Bool → List Ev → AuthOut
 
 /-! ## one auth method -/
 
-def runMethod (cfg : Cfg) (sigAlgs : Option String) (m : Method) (script : List Srv) : AuthOut :=
-  match m with
-  | .password pw => handleAuthResponse script false [Ev.wPassword cfg.user pw]
-  | .publickey signers => pkAuth cfg.user sigAlgs signers script
-  | .kbd p => kbdLoop p script false false [Ev.wKbd cfg.user]
+def nthOrLast (lists : List (List Signer)) (k : Nat) : List Signer :=
+  match lists[k]? with
+  | some l => l
+  | none => lists.getLast?.getD []
+
+/-- one `auth` call of a base method; `pk` = number of PublicKeysCallback invocations so far -/
+def runBase (cfg : Cfg) (sigAlgs : Option String) (b : Base) (script : List Srv) (pk : Nat) : AuthOut × Nat :=
+  match b with
+  | .password pw => (handleAuthResponse script false [Ev.wPassword cfg.user pw], pk)
+  | .publickey signers => (pkAuth cfg.user sigAlgs signers script, pk)
+  | .publickeyCb lists => (pkAuth cfg.user sigAlgs (nthOrLast lists pk) script, pk + 1)
+  | .kbd p => (kbdLoop p script false false [Ev.wKbd cfg.user], pk)
+
+/-- `retryableAuthMethod.auth`: call the base method until it does not plainly fail, `fuel` times at
+    most; returns the last result with the concatenated trace, the callback counter and the number
+    of calls made -/
+def retryIter (cfg : Cfg) (sigAlgs : Option String) (b : Base) :
+    Nat → List Srv → Nat → List Ev → Nat → AuthOut × Nat × Nat
+  | 0, script, pk, evs, calls => (⟨.failure, none, none, evs, script⟩, pk, calls)
+  | k + 1, script, pk, evs, calls =>
+    let r := runBase cfg sigAlgs b script pk
+    let out : AuthOut := { r.1 with evs := evs ++ r.1.evs }
+    if r.1.res != .failure || r.1.err.isSome || k == 0 then (out, r.2, calls + 1)
+    else retryIter cfg sigAlgs b k r.1.rest r.2 out.evs (calls + 1)
+
+/-- how many rounds RetryableAuthMethod may make: maxTries if positive; if not, as long as the
+    server keeps answering (every round reads at least one packet) -/
+def retryFuel (n : Int) (script : List Srv) : Nat := if n > 0 then n.toNat else script.length + 1
+
+/-- one `auth` call of a configured method: (result, PublicKeysCallback counter, base calls made) -/
+def runMethod (cfg : Cfg) (sigAlgs : Option String) (m : Method) (script : List Srv) (pk : Nat) : AuthOut × Nat × Nat :=
+  match m.retry with
+  | none => ((runBase cfg sigAlgs m.base script pk).1, (runBase cfg sigAlgs m.base script pk).2, 1)
+  | some n => retryIter cfg sigAlgs m.base (retryFuel n script) script pk [] 0
 
 /-! ## clientAuthenticate -/
 
@@ -285,6 +337,8 @@ structure LoopSt where
   tried : List String := []
   partialOk : List String := []
   lastMethods : List String := []
+  pkCalls : Nat := 0     -- PublicKeysCallback invocations so far
+  cbCalls : Nat := 0     -- AuthCallback invocations so far
 deriving Repr, Inhabited
 
 /-- the `findNext` scan: first configured method not yet tried (failed) that the server lists -/
@@ -299,23 +353,48 @@ def record (st : LoopSt) (name : String) (res : AuthRes) : LoopSt :=
   if res == .partialOk then { st with partialOk := st.partialOk ++ [name] }
   else { st with tried := st.tried ++ [name] }
 
-/-- bookkeeping after one `auth` call; `inl` = the loop ends with this result -/
-def afterAuth (cfg : Cfg) (st : LoopSt) (name : String) (r : AuthOut) : Sum Result (LoopSt × Method) :=
-  if r.err == some .disconnect then .inl .err else
-  if effRes r == .success then .inl .ok else
-  let st1 := record st name (effRes r)
-  if st1.partialOk.length + st1.tried.length > 64 then .inl .err else
-  match selectNext cfg st1.tried (r.methods.getD st.lastMethods) with
-  | some a => .inr ({ st1 with lastMethods := r.methods.getD st.lastMethods }, a)
+/-- what the AuthCallback is shown: AllowedMethods, PartialSuccessMethods, TriedMethods -/
+abbrev CbCtx := List String × List String × List String
+
+/-- how the loop goes on: `inl` = it ends with this result; and the context handed to AuthCallback
+    if it was invoked -/
+structure After where
+  next : Sum Result (LoopSt × Method)
+  cbCtx : Option CbCtx := none
+deriving Repr
+
+def pickNext (cfg : Cfg) (st : LoopSt) (methods : List String) : Sum Result (LoopSt × Method) :=
+  match selectNext cfg st.tried methods with
+  | some a => .inr (st, a)
   | none => .inl .err
 
+/-- bookkeeping after one `auth` call -/
+def afterAuth (cfg : Cfg) (st : LoopSt) (name : String) (r : AuthOut) : After :=
+  if r.err == some .disconnect then ⟨.inl .err, none⟩ else
+  if effRes r == .success then ⟨.inl .ok, none⟩ else
+  let st1 := record st name (effRes r)
+  if st1.partialOk.length + st1.tried.length > 64 then ⟨.inl .err, none⟩ else
+  let methods := r.methods.getD st.lastMethods
+  let st2 := { st1 with lastMethods := methods }
+  match cfg.authCb with
+  | none => ⟨pickNext cfg st2 methods, none⟩
+  | some ds =>
+    let st3 := { st2 with cbCalls := st2.cbCalls + 1 }
+    match ds[st.cbCalls]?.getD .next with
+    | .fail => ⟨.inl .err, some (methods, st1.partialOk, st1.tried)⟩
+    | .use m => ⟨.inr (st3, m), some (methods, st1.partialOk, st1.tried)⟩
+    | .next => ⟨pickNext cfg st3 methods, some (methods, st1.partialOk, st1.tried)⟩
+
 /-- one `auth` call of the main loop: which method, the server's method list in force and the
-    methods already failed when it was chosen, and what the call did -/
+    methods already failed when it was chosen, what the call did, how many base calls it made
+    (more than one only under RetryableAuthMethod), and what AuthCallback was shown afterwards -/
 structure Seg where
   method : String
   allowed : List String
   tried : List String
   out : AuthOut
+  calls : Nat := 1
+  cbCtx : Option CbCtx := none
 deriving Repr, Inhabited
 
 /-- the loop starts with the "none" method, then uses configured methods -/
@@ -323,20 +402,21 @@ def nameOf : Option Method → String
   | none => "none"
   | some a => a.name
 
-def callAuth (cfg : Cfg) (sigAlgs : Option String) (m : Option Method) (script : List Srv) : AuthOut :=
+def callAuth (cfg : Cfg) (sigAlgs : Option String) (m : Option Method) (script : List Srv) (pk : Nat) : AuthOut × Nat × Nat :=
   match m with
-  | none => handleAuthResponse script false [Ev.wNone cfg.user]
-  | some a => runMethod cfg sigAlgs a script
+  | none => (handleAuthResponse script false [Ev.wNone cfg.user], pk, 1)
+  | some a => runMethod cfg sigAlgs a script pk
 
 /-- the main loop, `fuel` iterations at most (66 suffice: see `fuel_irrelevant`) -/
 def mainLoop (cfg : Cfg) (sigAlgs : Option String) : Nat → LoopSt → Option Method → List Srv → List Seg → List Seg × Result
   | 0, _, _, _, segs => (segs, .err)
   | fuel + 1, st, m, script, segs =>
-    match afterAuth cfg st (nameOf m) (callAuth cfg sigAlgs m script) with
-    | .inl res => (segs ++ [⟨nameOf m, st.lastMethods, st.tried, callAuth cfg sigAlgs m script⟩], res)
-    | .inr (st', a) =>
-      mainLoop cfg sigAlgs fuel st' (some a) (callAuth cfg sigAlgs m script).rest
-        (segs ++ [⟨nameOf m, st.lastMethods, st.tried, callAuth cfg sigAlgs m script⟩])
+    let c := callAuth cfg sigAlgs m script st.pkCalls
+    let a := afterAuth cfg { st with pkCalls := c.2.1 } (nameOf m) c.1
+    let seg : Seg := ⟨nameOf m, st.lastMethods, st.tried, c.1, c.2.2, a.cbCtx⟩
+    match a.next with
+    | .inl res => (segs ++ [seg], res)
+    | .inr (st', nx) => mainLoop cfg sigAlgs fuel st' (some nx) c.1.rest (segs ++ [seg])
 
 structure RunOut where
   pre : List Ev          -- service request and what was read before the loop started
@@ -378,12 +458,14 @@ inductive Cred where
   | password (pw : String)
   | kbd (answer : String)
   | publickey (signers : List Signer)
+  | publickeyCb (lists : List (List Signer))
 deriving Repr, Inhabited
 
 def Cred.name : Cred → String
   | .password _ => "password"
   | .kbd _ => "keyboard-interactive"
   | .publickey _ => "publickey"
+  | .publickeyCb _ => "publickey"
 
 def signerWorks (serverAlgs : List String) (authKey : Nat) (s : Signer) : Bool :=
   s.key == authKey &&
@@ -391,14 +473,22 @@ def signerWorks (serverAlgs : List String) (authKey : Nat) (s : Signer) : Bool :
     | some a => serverAlgs.contains (underlyingAlgo a)
     | none => false
 
-def stageOk (serverAlgs : List String) (authKey : Nat) (cli : List Cred) (m : String) : Bool :=
+/-- does the first client method named `m` pass a stage; `pk` = publickey stages passed before
+    (= earlier PublicKeysCallback invocations) -/
+def stageOk (serverAlgs : List String) (authKey : Nat) (cli : List Cred) (m : String) (pk : Nat) : Bool :=
   match cli.find? (fun c => c.name == m) with
   | some (.password pw) => pw == "good"
   | some (.kbd a) => a == "good"
   | some (.publickey signers) => signers.any (signerWorks serverAlgs authKey)
+  | some (.publickeyCb lists) => (nthOrLast lists pk).any (signerWorks serverAlgs authKey)
   | none => false
 
+def chainOk (serverAlgs : List String) (authKey : Nat) (cli : List Cred) : List String → Nat → Bool
+  | [], _ => true
+  | m :: rest, pk =>
+    stageOk serverAlgs authKey cli m pk && chainOk serverAlgs authKey cli rest (if m == "publickey" then pk + 1 else pk)
+
 def compatible (chain : List String) (cli : List Cred) (authKey : Nat) (serverAlgs : List String) : Bool :=
-  !chain.isEmpty && chain.all (stageOk serverAlgs authKey cli)
+  !chain.isEmpty && chainOk serverAlgs authKey cli chain 0
 
 end XC.C34
